@@ -52,11 +52,73 @@ class _Return(Exception):
         self.value = value
 
 
+class SymVec:
+    """an integer whose bits are not known: bit i is 0, 1 or the symbol ("v", i).  Bitwise operations with known integers
+    and shifts by known amounts are exact; anything that would make control flow or arithmetic depend on an unknown bit is
+    refused (the analysis then has no answer, which the caller reports as such)."""
+    WIDTH = 64
+
+    def __init__(self, bits):
+        self.bits = tuple(bits)
+
+    @classmethod
+    def unknown(cls, width):
+        return cls([("v", i) if i < width else 0 for i in range(cls.WIDTH)])
+
+    @classmethod
+    def of(cls, n):
+        if n < 0:
+            raise AnalysisError("minieval: negative operand of a bit operation on an unknown value")
+        return cls([(n >> i) & 1 for i in range(cls.WIDTH)])
+
+    def concrete(self):
+        if all(b in (0, 1) for b in self.bits):
+            return sum(b << i for i, b in enumerate(self.bits))
+        return None
+
+    def __eq__(self, o):
+        return isinstance(o, SymVec) and self.bits == o.bits
+
+    def __hash__(self):
+        return hash(self.bits)
+
+    def __repr__(self):
+        c = self.concrete()
+        if c is not None:
+            return hex(c)
+        return "<" + "".join("1" if b == 1 else "0" if b == 0 else "v" for b in reversed(self.bits)).lstrip("0") + ">"
+
+
+def _bitop(op, a, b, node):
+    A = a if isinstance(a, SymVec) else SymVec.of(a)
+    B = b if isinstance(b, SymVec) else SymVec.of(b)
+    out = []
+    for x, y in zip(A.bits, B.bits):
+        if isinstance(op, ast.BitAnd):
+            r = 0 if (x == 0 or y == 0) else y if x == 1 else x if y == 1 else (x if x == y else None)
+        elif isinstance(op, ast.BitOr):
+            r = 1 if (x == 1 or y == 1) else y if x == 0 else x if y == 0 else (x if x == y else None)
+        else:
+            r = y if x == 0 else x if y == 0 else (0 if x == y else None) if (x in (0, 1) and y in (0, 1)) or x == y else None
+        if r is None:
+            raise AnalysisError(f"minieval: `{norm(node)}` combines two unknown bits")
+        out.append(r)
+    return SymVec(out)
+
+
 class Raised(Exception):
     """the evaluated function raises"""
 
     def __init__(self, cls, node):
         self.cls, self.node = cls, node
+
+
+class _Break(Exception):
+    pass
+
+
+class _Continue(Exception):
+    pass
 
 
 class Interp:
@@ -132,11 +194,37 @@ class Interp:
             self.block(st.body if self.truth(self.ev(st.test, env)) else st.orelse, env)
             return
         if isinstance(st, ast.For):
+            broke = False
             for x in self.iterate(self.ev(st.iter, env), st):
                 self.bind(st.target, x, env)
-                self.block(st.body, env)
-            self.block(st.orelse, env)
+                try:
+                    self.block(st.body, env)
+                except _Break:
+                    broke = True
+                    break
+                except _Continue:
+                    continue
+            if not broke:
+                self.block(st.orelse, env)
             return
+        if isinstance(st, ast.While):
+            broke = False
+            while self.truth(self.ev(st.test, env)):
+                self.tick(st)
+                try:
+                    self.block(st.body, env)
+                except _Break:
+                    broke = True
+                    break
+                except _Continue:
+                    continue
+            if not broke:
+                self.block(st.orelse, env)
+            return
+        if isinstance(st, ast.Break):
+            raise _Break()
+        if isinstance(st, ast.Continue):
+            raise _Continue()
         if isinstance(st, ast.Assert):
             if not self.truth(self.ev(st.test, env)):
                 raise Raised("AssertionError", st)
@@ -185,6 +273,13 @@ class Interp:
     def truth(v):
         if isinstance(v, (TypeRef, NewType, ListAlias)):
             return True
+        if isinstance(v, SymVec):
+            c = v.concrete()
+            if c is None:
+                if any(b == 1 for b in v.bits):
+                    return True
+                raise AnalysisError("minieval: a branch depends on the unknown value")
+            return bool(c)
         return bool(v)
 
     def iterate(self, v, node):
@@ -197,6 +292,23 @@ class Interp:
         raise AnalysisError(f"minieval: cannot iterate {type(v).__name__} at line {getattr(node, 'lineno', '?')}")
 
     def binop(self, op, a, b, node):
+        if isinstance(a, SymVec) or isinstance(b, SymVec):
+            if isinstance(op, (ast.BitAnd, ast.BitOr, ast.BitXor)) and all(isinstance(x, (SymVec, int)) for x in (a, b)):
+                r = _bitop(op, a, b, node)
+                return r.concrete() if r.concrete() is not None else r
+            if isinstance(op, (ast.RShift, ast.LShift)) and isinstance(a, SymVec):
+                k = b.concrete() if isinstance(b, SymVec) else b
+                if not isinstance(k, int) or isinstance(k, bool) or k < 0:
+                    raise AnalysisError(f"minieval: shift amount of `{norm(node)}` depends on the unknown value")
+                if isinstance(op, ast.RShift):
+                    bits = a.bits[k:] + (0,) * min(k, SymVec.WIDTH)
+                else:
+                    if any(x != 0 for x in a.bits[SymVec.WIDTH - k:]) if k else False:
+                        raise AnalysisError(f"minieval: `{norm(node)}` shifts unknown bits out of the modelled width")
+                    bits = (0,) * k + a.bits[:SymVec.WIDTH - k]
+                r = SymVec(bits[:SymVec.WIDTH])
+                return r.concrete() if r.concrete() is not None else r
+            raise AnalysisError(f"minieval: `{norm(node)}` computes with the unknown value")
         try:
             if isinstance(op, ast.Add):
                 return a + b
@@ -206,8 +318,29 @@ class Interp:
                 return a * b
             if isinstance(op, ast.BitOr) and isinstance(a, dict) and isinstance(b, dict):
                 return {**a, **b}
+            ints = isinstance(a, int) and isinstance(b, int)
+            if ints and isinstance(op, ast.BitAnd):
+                return a & b
+            if ints and isinstance(op, ast.BitOr):
+                return a | b
+            if ints and isinstance(op, ast.BitXor):
+                return a ^ b
+            if ints and isinstance(op, ast.RShift):
+                return a >> b
+            if ints and isinstance(op, ast.LShift) and 0 <= b <= 256:
+                return a << b
+            if ints and isinstance(op, ast.FloorDiv):
+                return a // b
+            if ints and isinstance(op, ast.Mod):
+                return a % b
+            if ints and isinstance(op, ast.Pow) and 0 <= b <= 256:
+                return a ** b
         except TypeError:
             raise Raised("TypeError", node)
+        except ZeroDivisionError:
+            raise Raised("ZeroDivisionError", node)
+        except ValueError:
+            raise Raised("ValueError", node)
         raise AnalysisError(f"minieval: unmodelled operator in `{norm(node)}`")
 
     def attr(self, obj, name, node):
@@ -305,6 +438,11 @@ class Interp:
             return v
         if isinstance(e, ast.UnaryOp) and isinstance(e.op, ast.Not):
             return not self.truth(self.ev(e.operand, env))
+        if isinstance(e, ast.UnaryOp) and isinstance(e.op, (ast.USub, ast.Invert, ast.UAdd)):
+            v = self.ev(e.operand, env)
+            if isinstance(v, int) and not isinstance(v, bool):
+                return -v if isinstance(e.op, ast.USub) else ~v if isinstance(e.op, ast.Invert) else v
+            raise AnalysisError(f"minieval: `{norm(e)[:60]}` on {type(v).__name__}")
         if isinstance(e, ast.IfExp):
             return self.ev(e.body if self.truth(self.ev(e.test, env)) else e.orelse, env)
         if isinstance(e, ast.Compare):
@@ -323,6 +461,13 @@ class Interp:
                     ok = any(self.eq(left, x) for x in self.iterate(right, e))
                 elif isinstance(op, ast.NotIn):
                     ok = not any(self.eq(left, x) for x in self.iterate(right, e))
+                elif isinstance(op, (ast.Lt, ast.LtE, ast.Gt, ast.GtE)):
+                    l_, r_ = (x.concrete() if isinstance(x, SymVec) else x for x in (left, right))
+                    if not all(isinstance(x, int) for x in (l_, r_)):
+                        if l_ is None or r_ is None:
+                            raise AnalysisError(f"minieval: comparison `{norm(e)}` depends on the unknown value")
+                        raise Raised("TypeError", e)
+                    ok = {ast.Lt: l_ < r_, ast.LtE: l_ <= r_, ast.Gt: l_ > r_, ast.GtE: l_ >= r_}[type(op)]
                 else:
                     raise AnalysisError(f"minieval: comparison `{norm(e)}`")
                 if not ok:
@@ -374,6 +519,16 @@ class Interp:
         return a is b
 
     def eq(self, a, b):
+        if isinstance(a, SymVec) or isinstance(b, SymVec):
+            A = a if isinstance(a, SymVec) else SymVec.of(a) if isinstance(a, int) and not isinstance(a, bool) and a >= 0 else None
+            B = b if isinstance(b, SymVec) else SymVec.of(b) if isinstance(b, int) and not isinstance(b, bool) and b >= 0 else None
+            if A is None or B is None:
+                return False
+            if any(x in (0, 1) and y in (0, 1) and x != y for x, y in zip(A.bits, B.bits)):
+                return False   # they differ in a known bit
+            if A.bits == B.bits and A.concrete() is not None:
+                return True
+            raise AnalysisError("minieval: an equality test depends on the unknown value")
         if isinstance(a, TypeRef) and isinstance(b, TypeRef):
             return a.name == b.name
         if isinstance(a, (TypeRef, NewType, ListAlias)) or isinstance(b, (TypeRef, NewType, ListAlias)):
@@ -415,6 +570,10 @@ class Interp:
                     return obj.endswith(args[0])
                 if m in ("isupper", "islower"):
                     return getattr(obj, m)()
+            if isinstance(obj, int) and not isinstance(obj, bool) and m == "bit_length" and not args:
+                return obj.bit_length()
+            if isinstance(obj, (TypeRef, NewType)) and callable(obj.attrs.get(m)):
+                return obj.attrs[m](*args, **kwargs)
             raise AnalysisError(f"minieval: method `{m}` of {type(obj).__name__}")
         name = f.id if isinstance(f, ast.Name) else None
         if name == "getattr":
